@@ -297,13 +297,13 @@ func (p *HTTPProxy) Serve(c net.Conn) {
 		io.WriteString(conn, "HTTP/1.1 400 Bad Request\r\n\r\n")
 		return
 	}
-	switch p.Reply {
-	case "garbage":
+	switch {
+	case p.Reply == "garbage":
 		io.WriteString(conn, "\x00\x01garbage\r\n\r\n")
 		return
-	case "eof":
+	case p.Reply == "eof":
 		return
-	case "", "200 Connection established", "200":
+	case p.Reply == "" || strings.HasPrefix(p.Reply, "200"):
 		st := p.Reply
 		if st == "" {
 			st = "200 Connection established"
